@@ -21,6 +21,7 @@ EXPLANATION = ("The condition guarding the scheduler call in Simulator.run is pr
                "fully_charged` with the 1e-3 kWh threshold; the previous-period accessors use column iteration-1 exactly, inclusive "
                "arrival test, and only from the third period on; current_datetime = start + timedelta(minutes=period)*iteration."
                ' Added in round 3: shallow copies (list / tuple / dict / copy / sorted) keep the aliasing of nested mutable elements in the escape analysis; the per-station accessors report the like-named field of the station asked about; SessionInfo / InfrastructureInfo store every parameter under its own name.')
+EXPLANATION += ' Added in rounds 4-5: the interface is a stateless view - a value kept on the interface object is handed out only under a guard that compares by value everything it was computed from, memoising decorators are refused; generic rule G5 covers cached recompute deadlines on the simulator.'
 NOT_DECIDED = ("that the number of invocations over a concrete history matches; the contents observed; schedulers that reach simulator "
                "state through means other than the Interface")
 
